@@ -484,6 +484,8 @@ impl MatmulHelper {
         let poly_degree = context_data.parms().poly_modulus_degree();
         let modulus = context_data.parms().coeff_modulus();
         let field_trace_logn = (poly_degree / pack_slots).ilog2() as usize;
+        // BGV ciphertexts are kept in NTT form just like CKKS ones
+        let ntt_scheme = context_data.is_ckks() || context_data.is_bgv();
 
         let mut buffer = cipher.data[0][0].clone();
         buffer.set_is_ntt_form(false);
@@ -493,7 +495,7 @@ impl MatmulHelper {
             for j in 0..cipher.data[0].len() {
                 let shift = pack_slots - 1;
                 let mut ciphertext = cipher.data[i][j].clone();
-                if context_data.is_ckks() {
+                if ntt_scheme {
                     evaluator.transform_from_ntt_inplace(&mut ciphertext);
                 }
                 if shift != 0 {
@@ -507,11 +509,11 @@ impl MatmulHelper {
                     buffer.data_mut().copy_from_slice(ciphertext.data());
                 }
                 evaluator.divide_by_poly_modulus_degree_inplace(&mut buffer, Some((poly_degree / pack_slots) as u64));
-                if context_data.is_ckks() {
+                if ntt_scheme {
                     evaluator.transform_to_ntt_inplace(&mut buffer);
                 }
                 evaluator.field_trace_inplace(&mut buffer, auto_key, field_trace_logn);
-                if context_data.is_ckks() {
+                if ntt_scheme {
                     evaluator.transform_from_ntt_inplace(&mut buffer);
                 }
                 let shift = current_slot;
@@ -542,7 +544,7 @@ impl MatmulHelper {
         if current.is_some() {
             output.push(current.unwrap());
         }
-        if context_data.is_ckks() {
+        if ntt_scheme {
             for each in output.iter_mut() {
                 evaluator.transform_to_ntt_inplace(each);
             }
